@@ -6,7 +6,7 @@ import ast
 import z3
 
 from . import loader, contract as C
-from .values import (Sym, SV, SList, SSet, SOpt, FuncRef, ModuleRef, ClassRef, Opaque, Unsupported, TInt, TBool, TStr,
+from .values import (SDict, Sym, SV, SList, SSet, SOpt, FuncRef, ModuleRef, ClassRef, Opaque, Unsupported, TInt, TBool, TStr,
                      TNet, TNone, TObj, TList, TSet, TOpt, TTuple, TBV, Net, fresh, fresh_name, type_constraints,
                      type_of, to_term, wrap, sort_of, is_concrete, list_from_concrete, default_term, BVW)
 
@@ -228,6 +228,10 @@ class ExprMixin:
         return self.index_value(base, idx, st, node)
 
     def index_value(self, base, idx, st, node=None):
+        if isinstance(base, SDict):
+            k = to_term(idx)
+            self.pending.append((z3.Not(base.dom[k]), "KeyError", None))
+            return wrap(base.vty, base.map[k])
         if isinstance(base, dict):
             if is_concrete(idx):
                 if idx not in base:
@@ -569,6 +573,8 @@ class ExprMixin:
             return z3.Or(*rs) if rs else False
         if isinstance(container, dict):
             return self.contains(list(container.keys()), x, st)
+        if isinstance(container, SDict):
+            return container.dom[to_term(x)]
         if isinstance(container, SList):
             from .spec import mem_term
             return mem_term(container, x)
